@@ -149,7 +149,7 @@ def title(rng):
     return t
 
 
-INPUTS = [b"\x1b[1;2R", b"\x1b[5;10R", b"\x1b[M !!", b"\x1b[M#+5", b"a", b"\r\n", b"\x1b[A", b"\x1b[15~", b"\x1bOP", b"\x9b3;3R", b"\x1b[", b"\x1b[?1;2c", b"\x1b[24;80R"]
+INPUTS = [b"", b"", b"\x1b[1;2R", b"\x1b[5;10R", b"\x1b[M !!", b"\x1b[M#+5", b"a", b"\r\n", b"\x1b[A", b"\x1b[15~", b"\x1bOP", b"\x9b3;3R", b"\x1b[", b"\x1b[?1;2c", b"\x1b[24;80R"]
 
 
 def history(rng, nops, blink=True, graphic=True, sized=True, ops_weights=None, behbits=None, wild=False, inputs=False, localised=False):
@@ -211,6 +211,11 @@ def _history(rng, nops, blink=True, graphic=True, sized=True, ops_weights=None, 
             e = element(rng, prev, blink, graphic)
             prev = e
             s = ("we " if o == "we" or prev is None else "re ") + fmt_el(e)
+        elif o == "ws" and rng.random() < 0.12:
+            # plain text streamed as a C string (`term << "text"`): a NUL-terminated char const*
+            txt = bytes(rng.choice([rng.randrange(0x20, 0x7F), 0x41, 0x20, 0x7E]) for _ in range(rng.choice([1, 2, 5, 12])))
+            s = "wl %d %s" % (len(txt), " ".join(str(b) for b in txt))
+            prev = [5, txt[-1], 0, 0] + list(DEFAULT_ATTR)
         elif o == "ws":
             es = []
             for _ in range(min(300, rng.choice([0, 1, 2, 3, 5, max(1, w - 1), w, w + 1, rng.choice([w + 1, 90, 300])]))):
